@@ -283,15 +283,18 @@ impl<T: Socket + ?Sized> Worker<T> {
     }
 
     fn check_response(&self) -> Result<(), Box<dyn Error>> {
-        if let Packet::Ack(received_block_number) = self.socket.recv()? {
-            if received_block_number != 0 {
+        match self.socket.recv()? {
+            Packet::Ack(received_block_number) if received_block_number != 0 => {
                 self.socket.send(&Packet::Error {
                     code: ErrorCode::IllegalOperation,
                     msg: "invalid oack response".to_string(),
                 })?;
+                Err("Invalid oack response".into())
             }
+            Packet::Error { code, msg } => {
+                Err(format!("Received error code {code}: {msg}").into())
+            }
+            _ => Ok(()),
         }
-
-        Ok(())
     }
 }
